@@ -5,12 +5,16 @@
    verify() overrides: flags extracted by ast inspection on every run (Gen/Schema.v).  Typed slots:
    the five modelled kinds (777 of 861 declared parameters); JSON floats are outside the value
    universe of the model and are decided by the driver's type matrix on the real code.
-   Cross-parameter rules: oidc.AuthorizationRequest / OpenIDRequest (without request object and
-   id_token_hint).  Embedded signed objects, the other classes' rules and the opaque kinds are decided
-   by the driver's oracle on the real code only. *)
+   Cross-parameter rules (Model/Msg.v, Model/MsgRules.v): oidc.AuthorizationRequest / OpenIDRequest
+   (without request object and id_token_hint), ResponseMessage, oauth2/oidc AuthorizationResponse,
+   RegistrationRequest, RegistrationResponse, ProviderConfigurationResponse, OpenIDSchema, IdToken,
+   JsonWebToken / AuthnToken, LogoutToken, EndSessionRequest: each rule set is the ordered list of
+   (condition, exception) the code checks, tied to the code by exhaustive truth tables.  Embedded signed
+   objects (AccessTokenResponse, BackChannelLogoutRequest, id_token_hint) and the opaque kinds are
+   decided by the driver's oracle on the real code only. *)
 From Coq Require Import String.
 From Verif Require Import Lib.Base Lib.PyStr Lib.MsgSchema Gen.Schema
-  Model.Msg Model.MsgKinds Proofs.Msg_proofs Proofs.MsgTable_proofs.
+  Model.Msg Model.MsgKinds Model.MsgRules Model.MsgCheck Proofs.Msg_proofs Proofs.MsgTable_proofs Proofs.MsgRules_proofs.
 Open Scope string_scope.
 
 (* ---- the generic check ---- *)
@@ -84,6 +88,94 @@ Theorem C11_AuthorizationRequest_verify :
 Proof. exact authz_verify_sound. Qed.
 Print Assumptions C11_AuthorizationRequest_verify.
 
+(* ---- cross-parameter rules of the other classes: accepted exactly when the parent check accepts and
+        every rule of the class holds (`all_hold` of the ordered rule list) ---- *)
+Theorem C11_rules_ProviderConfigurationResponse :
+  forall c allow m, pcr_typed m = true ->
+  (pcr_verify c allow m = Ok tt <-> response_verify c m = Ok tt /\ all_hold (pcr_checks allow m) = true).
+Proof. exact pcr_verify_iff. Qed.
+Print Assumptions C11_rules_ProviderConfigurationResponse.
+
+(* spelled out: EVERY response type that contains "code" (the code flow and all hybrid flows) needs a
+   token endpoint; https issuer without query / fragment; openid advertised; no "none" for client
+   authentication; a real id_token signing algorithm *)
+Theorem C11_ProviderConfigurationResponse_accepts_only :
+  forall c allow m, pcr_typed m = true -> pcr_verify c allow m = Ok tt ->
+  let issuer := match get "issuer" m with Some (VStr s) => s | _ => [] end in
+  let rts := strs (list_of (get "response_types_supported" m)) in
+  (forall rt, In rt rts -> contains (PS "code") rt = true -> has "token_endpoint" m = true)
+  /\ (allow = false -> fst (url_scheme_rest issuer) = PS "https")
+  /\ url_query (snd (url_scheme_rest issuer)) = [] /\ url_fragment (snd (url_scheme_rest issuer)) = []
+  /\ (has "scopes_supported" m = true -> In (PS "openid") (strs (list_of (get "scopes_supported" m))))
+  /\ ~ In (PS "none") (strs (list_of (get "token_endpoint_auth_signing_alg_values_supported" m)))
+  /\ (exists a, In a (strs (list_of (get "id_token_signing_alg_values_supported" m))) /\ lower a <> PS "none").
+Proof. exact pcr_accepts_only. Qed.
+Print Assumptions C11_ProviderConfigurationResponse_accepts_only.
+
+Theorem C11_rules_ResponseMessage :
+  forall c m, response_typed m = true ->
+  (response_verify c m = Ok tt <-> generic_verify c m = Ok tt /\ all_hold (response_checks m) = true).
+Proof. exact response_verify_iff. Qed.
+Print Assumptions C11_rules_ResponseMessage.
+
+Theorem C11_rules_AuthorizationResponse :
+  forall c kw m, authzresp_verify c kw m = Ok tt <->
+                 response_verify c m = Ok tt /\ all_hold (authzresp_checks kw m) = true.
+Proof. exact authzresp_verify_iff. Qed.
+Print Assumptions C11_rules_AuthorizationResponse.
+
+Theorem C11_rules_RegistrationResponse :
+  forall c m, regresp_verify c m = Ok tt <->
+  response_verify c m = Ok tt /\ has "registration_client_uri" m = has "registration_access_token" m.
+Proof. exact regresp_verify_iff. Qed.
+Print Assumptions C11_rules_RegistrationResponse.
+
+Theorem C11_RegistrationRequest_accepts_only :
+  forall c m m', regreq_verify c m = Ok m' -> regreq_post m' = true.
+Proof. exact regreq_accepts_only. Qed.
+Print Assumptions C11_RegistrationRequest_accepts_only.
+
+Theorem C11_rules_IdToken :
+  forall c now kw m, idtoken_typed kw m = true ->
+  (idtoken_verify c now kw m = Ok tt <->
+   (exists b, openid_verify c m = Ok b) /\ all_hold (idtoken_checks now kw m) = true).
+Proof. exact idtoken_verify_iff. Qed.
+Print Assumptions C11_rules_IdToken.
+
+Theorem C11_IdToken_time_rules :
+  forall c now kw m, idtoken_typed kw m = true -> idtoken_verify c now kw m = Ok tt ->
+  let skew := kw_int "skew" 0%Z kw in
+  let exp := int_of (get "exp" m) in let iat := int_of (get "iat" m) in
+  (now - skew <= exp /\ iat <= now + skew /\ now - skew <= iat + kw_int "nonce_storage_time" NONCE_STORAGE_TIME kw
+   /\ iat <= exp)%Z.
+Proof. exact idtoken_time_rules. Qed.
+Print Assumptions C11_IdToken_time_rules.
+
+Theorem C11_rules_JsonWebToken :
+  forall c now kw m, jwt_typed kw m = true ->
+  (jwt_verify c now kw m = Ok tt <-> generic_verify c m = Ok tt /\ all_hold (jwt_checks now kw m) = true).
+Proof. exact jwt_verify_iff. Qed.
+Print Assumptions C11_rules_JsonWebToken.
+
+Theorem C11_rules_LogoutToken :
+  forall c now kw m, logout_typed kw m = true ->
+  (logout_verify c now kw m = Ok tt <-> generic_verify c m = Ok tt /\ all_hold (logout_checks now kw m) = true).
+Proof. exact logout_verify_iff. Qed.
+Print Assumptions C11_rules_LogoutToken.
+
+Theorem C11_LogoutToken_accepts_only :
+  forall c now kw m, logout_typed kw m = true -> logout_verify c now kw m = Ok tt ->
+  has "nonce" m = false /\ get "events" m = Some (VDict [(logout_event, VDict [])])
+  /\ (has "sub" m = true \/ has "sid" m = true).
+Proof. exact logout_accepts_only. Qed.
+Print Assumptions C11_LogoutToken_accepts_only.
+
+Theorem C11_EndSessionRequest_accepts_only :
+  forall c m, endsession_verify c m = Ok true ->
+  generic_verify c m = Ok tt /\ (has "post_logout_redirect_uri" m = true -> False).
+Proof. exact endsession_accepts_only. Qed.
+Print Assumptions C11_EndSessionRequest_accepts_only.
+
 (* ---- non-vacuity ---- *)
 Definition ex_class : pystr := PS "idpyoidc.message.oidc.AuthorizationRequest".
 Definition ex_ok : msg :=
@@ -103,6 +195,27 @@ Example C11_nonvacuous :
       /\ authz_verify c None (adel (PS "client_id") ex_ok) = Err EMissingRequired
       /\ authz_verify c None (aset (PS "redirect_uri") (VStr []) ex_ok) = Err EMissingRequired
       /\ c_overrides_verify c = true /\ c_chains c = true
+  | None => False
+  end.
+Proof. vm_compute. repeat split; reflexivity. Qed.
+
+Definition pcr_class : pystr := PS "idpyoidc.message.oidc.ProviderConfigurationResponse".
+Definition pcr_ok_msg : msg :=
+  [(PS "issuer", VStr (PS "https://op.example")); (PS "authorization_endpoint", VStr (PS "https://op.example/a"));
+   (PS "jwks_uri", VStr (PS "https://op.example/j"));
+   (PS "response_types_supported", VList [VStr (PS "code id_token"); VStr (PS "id_token")]);
+   (PS "subject_types_supported", VList [VStr (PS "public")]);
+   (PS "id_token_signing_alg_values_supported", VList [VStr (PS "RS256")]);
+   (PS "token_endpoint", VStr (PS "https://op.example/t")); (PS "scopes_supported", VList [VStr (PS "openid")])].
+Example C11_rules_nonvacuous :
+  match find_class pcr_class all_classes with
+  | Some c =>
+      pcr_typed pcr_ok_msg = true /\ pcr_verify c false pcr_ok_msg = Ok tt
+      (* a hybrid response type without a token endpoint is refused *)
+      /\ pcr_verify c false (adel (PS "token_endpoint") pcr_ok_msg) = Err EMissingRequired
+      /\ pcr_verify c false (aset (PS "issuer") (VStr (PS "http://op.example")) pcr_ok_msg) = Err EScheme
+      /\ pcr_verify c true (aset (PS "issuer") (VStr (PS "http://op.example")) pcr_ok_msg) = Ok tt
+      /\ pcr_verify c false (aset (PS "issuer") (VStr (PS "https://op.example?x=1")) pcr_ok_msg) = Err ValueError
   | None => False
   end.
 Proof. vm_compute. repeat split; reflexivity. Qed.
